@@ -17,7 +17,7 @@ func init() {
 		Explanation: `R14.1 emit/advance pairing: OverlayOp messages are written only by fresh, skip and Finalize; fresh advances readOffset by len of the data it stored in the op, skip by the length it stored, on every success path; ` +
 			`R14.2 Finalize flushes (checked) before writing the end marker, and the entry writer finalizes the overlay before syncing; R14.3 magic and header are written only at overlay offset 0 and the byte counter is seeded with the overlay offset; ` +
 			`R14.4 every op type the writer emits has a case in the applier and the applier returns nil only at the end marker; R14.5 the old-file window is inspected only below the count its Read returned; R14.6 that read cannot come back short before the end of the old file (a full read, or a single Read on a reader that is not a bufio.Reader); ` +
-			`R02.4 (shared) the caller truncates at the position the applier ended. R14.7 each field that OverlayPatchContext.Patch assigns is assigned before it is first read or is zero again on every success return; scratch buffers, recycled message objects that are Reset before use and allocation tests are not state. NOT decided: the window/skip index arithmetic, write slicing, short reads of the old file.`,
+			`R02.4 (shared) the caller truncates at the position the applier ended. R14.7 each field that OverlayPatchContext.Patch assigns is assigned before it is first read or is zero again on every success return; scratch buffers, recycled message objects that are Reset before use and allocation tests are not state. R14.8 every success return of overlayProcessor.write has read the old file into the window (old and new are consumed in lockstep). NOT decided: the window/skip index arithmetic, write slicing, short reads of the old file.`,
 		Run: runC14,
 	})
 }
@@ -284,6 +284,72 @@ func runC14(c *core.Ctx) {
 		c.Floor("R14.4", "success returns of Patch", nNil, 1)
 	}
 
+	ruleWindowInspectedBelowCount(c)
+
+	ruleTruncate(c, "R02.4")
+}
+
+// ruleTruncate (R02.4, shared by C02 and C14): in applyOverlays' handler every
+// success return passes Patch -> Seek(0, SeekCurrent) -> Truncate(result of that Seek).
+func ruleTruncate(c *core.Ctx, rule string) {
+	ao := c.P.Fn("pwr/bowl", "overlayBowl.applyOverlays")
+	if ao == nil {
+		c.Missing(rule, "pwr/bowl.(*overlayBowl).applyOverlays", "not found")
+		return
+	}
+	isPatch := func(in ssa.Instruction) bool {
+		cl, ok := in.(*ssa.Call)
+		return ok && core.CalleeName(cl) == "(*pwr/overlay.OverlayPatchContext).Patch"
+	}
+	var h *ssa.Function
+	for _, f := range core.WithAnons(ao) {
+		if containsCall(f, isPatch) {
+			h = f
+		}
+	}
+	if h == nil {
+		c.Bad(rule, core.FnName(ao), "overlay handler", ao.Pos(), "no function applies the overlay with OverlayPatchContext.Patch")
+		return
+	}
+	patch := firstInstr(h, isPatch).(*ssa.Call)
+	var seek *ssa.Call
+	core.Instrs(h, func(in ssa.Instruction) {
+		if cl, ok := in.(*ssa.Call); ok && core.CalleeName(cl) == "(*os.File).Seek" {
+			z, isZ := core.ConstInt(cl.Call.Args[1])
+			w, isW := core.ConstInt(cl.Call.Args[2])
+			if isZ && isW && z == 0 && w == 1 && sharesOrigin(cl.Call.Args[0], patch.Call.Args[2]) {
+				seek = cl
+			}
+		}
+	})
+	isTrunc := func(in ssa.Instruction) bool {
+		cl, ok := in.(*ssa.Call)
+		return ok && core.CalleeName(cl) == "(*os.File).Truncate" && seek != nil && extractOf(cl.Call.Args[1], seek, 0)
+	}
+	n := 0
+	for _, rs := range successReturns(h) {
+		n++
+		p1 := core.FindPath(h, nil, isInstr(rs.Ret), isPatch)
+		c.Check(p1 == nil, rule, core.FnName(h), "success requires the overlay to have been applied", core.InstrPos(rs.Ret), "Patch on every success path", "the handler can succeed without applying the overlay").Path = c.P.PathStrings(p1)
+		ok := seek != nil && core.FindPath(h, patch, isInstr(rs.Ret), isTrunc) == nil && core.InstrDominates(patch, seek)
+		c.Check(ok, rule, core.FnName(h), "file truncated at the position where the applier ended", core.InstrPos(rs.Ret),
+			"Patch -> Seek(0, SeekCurrent) -> Truncate(that position) on every success path", "after applying an overlay the file is not truncated at the applier's final position on every success path: a file that became shorter keeps its old tail")
+	}
+	c.Floor(rule, "success returns of the overlay handler", n, 1)
+}
+
+// mustBase returns the struct value a field load / address is taken from (or v).
+func mustBase(v ssa.Value) ssa.Value {
+	if b, _, ok := core.FieldOf(v); ok {
+		return b
+	}
+	return v
+}
+
+// ruleWindowInspectedBelowCount is R14.5 (shared with C02: what the overlay writer skips is what in-place
+// application leaves untouched).
+func ruleWindowInspectedBelowCount(c *core.Ctx) {
+	c.Rule("R14.5", "old-file window inspected only below the count read")
 	// ---- R14.5
 	wr := c.P.Fn("pwr/overlay", "overlayProcessor.write")
 	if wr == nil {
@@ -321,6 +387,19 @@ func runC14(c *core.Ctx) {
 		if rd == nil {
 			c.Bad("R14.5", core.FnName(wr), "read of the old-file window", wr.Pos(), "no Read into ow.rbuf found")
 		} else {
+			// R14.8: old and new are consumed in lockstep. fresh and skip advance readOffset by what they emit;
+			// the old-file reader only moves when it is read. Every success return of write has read the old
+			// file - a window declared fresh unseen leaves the reader behind readOffset for the rest of the
+			// session, and every later comparison runs out of alignment
+			c.Rule("R14.8", "a window is processed only after the old file was read for it")
+			nS := 0
+			for _, rs := range successReturns(wr) {
+				nS++
+				p := core.FindPath(wr, nil, isInstr(rs.Ret), isInstr(rd))
+				c.Check(p == nil, "R14.8", core.FnName(wr), "success return after the old-file read", core.InstrPos(rs.Ret),
+					"every path to this return reads the old file into the window", "write can process a window (and advance readOffset through fresh/skip) without reading the old file: the old-file reader falls behind the offset the writer reports, later windows are compared with the wrong old bytes, and a chance match becomes a SKIP over data that is not there").Path = c.P.PathStrings(p)
+			}
+			c.Floor("R14.8", "success returns of overlayProcessor.write", nS, 1)
 			// R14.6: a short count from the window read is taken for the end of the old file, so the read must not
 			// be able to come back short before the end: it is a full read (io.ReadFull / ReadAtLeast), or the
 			// reader is not a buffering one (files and in-memory readers fill the buffer; a bufio.Reader hands out
@@ -407,63 +486,4 @@ func runC14(c *core.Ctx) {
 			c.Floor("R14.5", "inspections of the old-file window", n, 1)
 		}
 	}
-
-	ruleTruncate(c, "R02.4")
-}
-
-// ruleTruncate (R02.4, shared by C02 and C14): in applyOverlays' handler every
-// success return passes Patch -> Seek(0, SeekCurrent) -> Truncate(result of that Seek).
-func ruleTruncate(c *core.Ctx, rule string) {
-	ao := c.P.Fn("pwr/bowl", "overlayBowl.applyOverlays")
-	if ao == nil {
-		c.Missing(rule, "pwr/bowl.(*overlayBowl).applyOverlays", "not found")
-		return
-	}
-	isPatch := func(in ssa.Instruction) bool {
-		cl, ok := in.(*ssa.Call)
-		return ok && core.CalleeName(cl) == "(*pwr/overlay.OverlayPatchContext).Patch"
-	}
-	var h *ssa.Function
-	for _, f := range core.WithAnons(ao) {
-		if containsCall(f, isPatch) {
-			h = f
-		}
-	}
-	if h == nil {
-		c.Bad(rule, core.FnName(ao), "overlay handler", ao.Pos(), "no function applies the overlay with OverlayPatchContext.Patch")
-		return
-	}
-	patch := firstInstr(h, isPatch).(*ssa.Call)
-	var seek *ssa.Call
-	core.Instrs(h, func(in ssa.Instruction) {
-		if cl, ok := in.(*ssa.Call); ok && core.CalleeName(cl) == "(*os.File).Seek" {
-			z, isZ := core.ConstInt(cl.Call.Args[1])
-			w, isW := core.ConstInt(cl.Call.Args[2])
-			if isZ && isW && z == 0 && w == 1 && sharesOrigin(cl.Call.Args[0], patch.Call.Args[2]) {
-				seek = cl
-			}
-		}
-	})
-	isTrunc := func(in ssa.Instruction) bool {
-		cl, ok := in.(*ssa.Call)
-		return ok && core.CalleeName(cl) == "(*os.File).Truncate" && seek != nil && extractOf(cl.Call.Args[1], seek, 0)
-	}
-	n := 0
-	for _, rs := range successReturns(h) {
-		n++
-		p1 := core.FindPath(h, nil, isInstr(rs.Ret), isPatch)
-		c.Check(p1 == nil, rule, core.FnName(h), "success requires the overlay to have been applied", core.InstrPos(rs.Ret), "Patch on every success path", "the handler can succeed without applying the overlay").Path = c.P.PathStrings(p1)
-		ok := seek != nil && core.FindPath(h, patch, isInstr(rs.Ret), isTrunc) == nil && core.InstrDominates(patch, seek)
-		c.Check(ok, rule, core.FnName(h), "file truncated at the position where the applier ended", core.InstrPos(rs.Ret),
-			"Patch -> Seek(0, SeekCurrent) -> Truncate(that position) on every success path", "after applying an overlay the file is not truncated at the applier's final position on every success path: a file that became shorter keeps its old tail")
-	}
-	c.Floor(rule, "success returns of the overlay handler", n, 1)
-}
-
-// mustBase returns the struct value a field load / address is taken from (or v).
-func mustBase(v ssa.Value) ssa.Value {
-	if b, _, ok := core.FieldOf(v); ok {
-		return b
-	}
-	return v
 }
